@@ -48,7 +48,7 @@ func callMath(fn string, args ...lua.LValue) (res []lua.LValue, errs string) {
 }
 
 var mopCtor = map[string]string{"floor": "MFloor", "ceil": "MCeil", "abs": "MAbs", "sqrt": "MSqrt", "deg": "MDeg",
-	"rad": "MRad", "fmod": "MFmod", "modf": "MModf", "frexp": "MFrexp", "ldexp": "MLdexp", "max": "MMax", "min": "MMin"}
+	"rad": "MRad", "fmod": "MFmod", "modf": "MModf", "frexp": "MFrexp", "mod": "MFmod", "ldexp": "MLdexp", "max": "MMax", "min": "MMin"}
 
 // thin wrappers decided against Go's own math (the oracle): only argument order and arity are at stake
 var goOnly1 = map[string]func(float64) float64{"exp": math.Exp, "log": math.Log, "log10": math.Log10,
@@ -80,6 +80,19 @@ func relClose(a, b, tol float64) bool {
 func agrees1(fn string, x, got, goWant float64) bool {
 	sub := x > 0 && x < 0x1p-1022
 	switch fn {
+	case "asin", "acos":
+		// Go's Asin/Acos cancel in 1-x*x near |x| = 1 (acos(0.99999999) has 6 correct digits); the
+		// yardstick is the cancellation-free identity, within 1e-15
+		if math.Abs(x) < 1 && x != 0 {
+			want := math.Atan2(x, math.Sqrt((1-x)*(1+x)))
+			if fn == "acos" {
+				want = 2 * math.Atan2(math.Sqrt(1-x), math.Sqrt(1+x))
+			}
+			return relClose(got, want, 1e-15)
+		}
+		if math.Abs(x) == 1 {
+			return relClose(got, goWant, 1e-15)
+		}
 	case "log":
 		if sub {
 			return relClose(got, math.Log(x*0x1p54)-54*math.Ln2, 1e-13)
@@ -178,7 +191,7 @@ func runMath(w *lib.Writer, c mathIn) {
 	}
 	nominal := 1
 	switch fn {
-	case "fmod", "ldexp":
+	case "fmod", "ldexp", "mod":
 		nominal = 2
 	case "max", "min":
 		nominal = len(xs)
@@ -308,6 +321,8 @@ func mathCorpus(w *lib.Writer) {
 		mIn("log", 1e-320), mIn("log", 5e-324), mIn("log10", 1e-310), mIn("log10", 5e-324), // subnormals (fixed)
 		mIn("log10", 1e15), mIn("log10", 0.1), mIn("log10", 1e-4), mIn("log10", 1e29),     // powers of ten (fixed)
 		mIn("exp", 709.5), mIn("exp", 709.78), mIn("exp", 709.79), mIn("sinh", 710), mIn("sinh", -710), mIn("cosh", 710), mIn("cosh", 710.5), // early overflow (fixed)
+		mIn("mod", -7, 3), mIn("mod", 5.5, -2), mIn("mod", 1, 0), // math.mod = math.fmod (fixed)
+		mIn("acos", 0.99999999), mIn("acos", 1-1e-14), mIn("asin", 0.99999999), mIn("acos", -0.99999999), mIn("acos", 1), mIn("acos", -1), mIn("asin", 1), mIn("acos", 2), // cancellation near 1 (fixed)
 		mIn("deg", 2e306), mIn("rad", 1e308), mIn("rad", math.MaxFloat64), mIn("deg", 5e-324), mIn("rad", 5e-324), // x*180/pi overflowed (fixed)
 		mIn("pow", 2, 10), mIn("atan2", 1, 2),
 		mIn("pow", math.Copysign(0, -1), 0.5), mIn("pow", math.Inf(-1), 0.5), // seeded C15-1: pow is not sqrt at -0 / -Inf
@@ -425,6 +440,15 @@ func genMath(w *lib.Writer, r *lib.Rand, tier string) {
 		x := math.Ldexp(float64(r.Range(1, 1<<20)), r.Range(0, 900))
 		runMath(w, mIn("atan2", -y, -x))
 		runMath(w, mIn("atan2", y, -x))
+	}
+	for k := 0; k < 60*reps; k++ { // asin / acos towards |x| = 1
+		x := 1 - math.Ldexp(float64(r.Range(1, 1<<20)), -r.Range(21, 72))
+		if r.Bool() {
+			x = -x
+		}
+		runMath(w, mIn("asin", x))
+		runMath(w, mIn("acos", x))
+		runMath(w, mIn("mod", pick(), pick()))
 	}
 	checkHuge(w)
 	genPowExact(w)
